@@ -171,6 +171,53 @@ Theorem C16_reproduce_error_only_when_too_few : forall p pop_len partial under w
 Proof. intros p pop_len partial under. exact (reproduce_raise_g p pop_len partial under). Qed.
 Print Assumptions C16_reproduce_error_only_when_too_few.
 
+(* ---------- the correspondence relation and the executable clauses vs the theorems ---------- *)
+(* `tour_admits` (the rank condition the driver evaluates on observed tournament outputs) is
+   exactly "produced by some run of the tournament loop": sound for every comparison, complete
+   on strict weak orders *)
+Theorem C16_tour_admits_sound : forall gsize, 1 <= gsize -> forall out inds,
+  NoDup (map uid inds) -> tour_admits better gsize inds out = true ->
+  exists tr, tour_rounds better gsize inds tr /\ inds_eqb out (map snd tr) = true.
+Proof. exact (tour_admits_sound better). Qed.
+Print Assumptions C16_tour_admits_sound.
+
+Theorem C16_tour_admits_complete : forall gsize inds tr,
+  NoDup (map uid inds) -> swo_on better inds -> tour_rounds better gsize inds tr ->
+  tour_admits better gsize inds (map snd tr) = true.
+Proof. exact (tour_admits_complete better). Qed.
+Print Assumptions C16_tour_admits_complete.
+
+(* the executable clauses (`*_holds_b`, evaluated by the driver on the implementation's observed
+   outputs) hold of the model's outputs for every oracle, i.e. they ask for nothing beyond
+   the theorems above *)
+Theorem C16_oracle_holds_of_model : forall o cs population pop_size p best new sc t prev,
+  sel_holds_b Tournament population pop_size (select Tournament o population pop_size) = true /\
+  eli_holds_b p best new (elitism p cs best new) = true /\
+  (e_type p = KeepNBest \/ ahead_of_head worse best new < length new ->
+   eli_head_b p best new (elitism p cs best new) = true) /\
+  inh_holds_b sc pop_size prev new (inherit sc t o pop_size prev new) = true.
+Proof.
+  intros. split; [apply model_sel_holds_b_tournament|]. split; [apply model_eli_holds_b|].
+  split; [apply model_eli_head_b|apply model_inh_holds_b].
+Qed.
+Print Assumptions C16_oracle_holds_of_model.
+
+Theorem C16_oracle_holds_of_model_reproduction : forall p pop_len parts under w sizes,
+  ratio_ok p -> (forall x, In x (concat parts) -> evaluated x = true) ->
+  let r := fst (fst (reproduce p pop_len (fun i _ => nth i parts []) under w)) in
+  rep_holds_call (Build_rcall p pop_len parts sizes
+                    (match r with RetOk l => ORet l | RaiseAttempts => OAttemptsError end)) = true.
+Proof. exact model_rep_holds_call. Qed.
+Print Assumptions C16_oracle_holds_of_model_reproduction.
+
+(* reflection of the boolean sub-predicates *)
+Theorem C16_reflection : forall l out inp x,
+  (nodup_uid l = true <-> NoDup (map uid l)) /\
+  (mem_uid x l = true <-> In (uid x) (map uid l)) /\
+  (subset_b out inp = true <-> forall y, In y out -> exists z, In z inp /\ ind_eqb y z = true).
+Proof. intros. split; [apply nodup_uid_iff|]. split; [apply mem_uid_iff|apply subset_b_iff]. Qed.
+Print Assumptions C16_reflection.
+
 (* ---------- non-vacuity: the hypotheses are satisfiable by non-trivial states ---------- *)
 Definition e_a := Build_ind 0 (Single (Some (1 # 1)%Q) []).
 Definition e_b := Build_ind 1 (Single (Some (1 # 2)%Q) []).
